@@ -1083,7 +1083,13 @@ class Emitter:
             if pc or pa or pb:
                 n = 'pz_' + cid(dest); s.decls[n] = 'uint8_t'; s.pz[dest] = n
                 s.body.append('  %s = %s || ((%s) ? %s : %s);' % (n, pc or '0', s.val(c), pa or '0', pb or '0'))
-            s.setreg(dest, a.ty, '(%s) ? (%s) : (%s)' % (s.val(c), s.val(a), s.val(b)))
+            if getattr(s, 'select_branch', False):
+                # single-path exploration: a select on symbolic data would keep BOTH values alive as one symbolic term (e.g. a size-class
+                # index computed branch-free by clang); as a branch, each path sees a concrete value and everything derived from it folds
+                n = cid(dest); s.decls[n] = s.cty(a.ty)
+                s.body.append('  if(%s) %s = %s; else %s = %s;' % (s.val(c), n, s.val(a), n, s.val(b)))
+            else:
+                s.setreg(dest, a.ty, '(%s) ? (%s) : (%s)' % (s.val(c), s.val(a), s.val(b)))
         elif op == 'getelementptr':
             inb = tk.accept('inbounds')
             bty = parse_type(tk); tk.expect(',')
@@ -1326,6 +1332,9 @@ class Emitter:
                 else:
                     a, b = A[0], A[1]
                 c = '>' if nm.endswith('max') else '<'
+                if getattr(s, 'select_branch', False):
+                    n = cid(dest); s.decls[n] = s.cty(rty)
+                    s.body.append('  if(%s %s %s) %s = %s; else %s = %s;' % (a, c, b, n, A[0], n, A[1])); return
                 s.setreg(dest, rty, '(%s %s %s) ? %s : %s' % (a, c, b, A[0], A[1])); return
         if base.startswith('ctlz.') or base.startswith('cttz.') or base.startswith('ctpop.'):
             bits = args[0].ty.bits
@@ -1556,6 +1565,7 @@ def main():
     M = parse_module(src)
     cls = FlatEmitter if '--flat' in sys.argv else Emitter
     E = cls(M, ub_checks=('--ub-checks' in sys.argv))
+    E.select_branch = '--flat' in sys.argv or '--select-branch' in sys.argv
     import os
     out = sys.argv[2]
     E.unit = os.path.basename(out)[:-2] if out.endswith('.c') else os.path.basename(out)
